@@ -32,6 +32,8 @@ package escape
 //@   loop 1 step num: !attr_safe(c) && !attr_named(c) && !attr_ctrl(c) ==> buflen(out) == prev(buflen(out)) + esclen_attrnum(c) &&
 //@+      (forall k in [0, 10) :: k < esclen_attrnum(c) ==> bufbyte(out, prev(buflen(out)) + k) == escbyte_attrnum(c, k))
 //@   loop 1 step frame: forall j :: 0 <= j && j < prev(buflen(out)) ==> bufbyte(out, j) == prev(bufbyte(out, j))
+// a control character the decoder would not give back becomes the replacement character &#xFFFD;
+//@   loop 1 step ctrl: attr_ctrl(c) ==> buflen(out) == prev(buflen(out)) + 8 && bufbyte(out, prev(buflen(out))) == 38 && bufbyte(out, prev(buflen(out)) + 1) == 35 && bufbyte(out, prev(buflen(out)) + 2) == 120 && bufbyte(out, prev(buflen(out)) + 7) == 59
 
 //@ func escape.JS
 // the property itself, on the result alone: every byte of the output is in the safe alphabet of the context
